@@ -19,7 +19,7 @@ enum OpKind { O_APPEND = 1, O_PREPEND = 2, O_INSERT = 3, O_REMOVE = 4, O_OWNS = 
 // Op fields: d = key index. adds: a = callback id (= slot), b = before slot, c = listener kind. remove/owns: b = slot.
 //            dispatch: a = value seed, c = form (argument value categories / event-included form)
 enum { U_VARIANT = 0 };
-enum { V_COUNT = 9 };
+enum { V_COUNT = 11 };
 
 typedef Tracked<seq::T_PAY, false> Payload;
 typedef std::vector<long> Sig;
@@ -316,6 +316,63 @@ struct Cfg8
 	static int forms() { return 3; }
 };
 
+
+// cfg9: ExcludeEvent form with a getEvent policy that reads a TRAILING by-value movable argument (the topic): dispatch() must obtain
+// the event before it forwards (moves) its own by-value parameters on - whatever order the compiler evaluates call arguments in
+struct Cfg9
+{
+	typedef int Key;
+	typedef void Proto(std::string, Payload);
+	struct Pol
+	{
+		typedef eventpp::ArgumentPassingExcludeEvent ArgumentPassingMode;
+		static int getEvent(int base, const std::string & topic, const Payload &) { faultPoint(F_CALL); return base + (int)topic.size(); }
+	};
+	typedef eventpp::EventDispatcher<Key, Proto, Pol> D;
+	static Key key(int i) { return 100 + i * 7; }
+	struct K0 : LBase { explicit K0(int id) : LBase(id) {} void operator() (std::string s, Payload p) const { Sig g; g.push_back(canon(s)); g.push_back(canon(p)); report(g); } };
+	struct K1 : LBase { explicit K1(int id) : LBase(id) {} void operator() (const std::string & s, const Payload & p) const { Sig g; g.push_back(canon(s)); g.push_back(canon(p)); report(g); } };
+	struct K2 : LBase { explicit K2(int id) : LBase(id) {} void operator() (std::string s, Payload p) const { Sig g; g.push_back(canon(s)); g.push_back(canon(p)); std::string t(std::move(s)); Payload stolen(std::move(p)); report(g); } };
+	static std::function<Proto> make(int kind, int cb) { return kind == 1 ? std::function<Proto>(K1(cb)) : kind == 2 ? std::function<Proto>(K2(cb)) : std::function<Proto>(K0(cb)); }
+	static void dispatch(D & d, int ki, int v, int form)
+	{
+		std::string topic = strOf(v);
+		Payload p(2000, v * 5 + 2);
+		const int base = key(ki) - (int)topic.size();
+		if(form == 0) d.dispatch(base, topic, p);
+		else if(form == 1) d.dispatch(base, strOf(v), Payload(2000, v * 5 + 2));
+		else d.dispatch(base, std::move(topic), std::move(p));
+	}
+	static Sig expected(int, int v, int) { Sig g; g.push_back(H(strOf(v))); g.push_back(v * 5 + 2); return g; }
+	static int forms() { return 3; }
+};
+
+
+// cfg10: the queued counterpart of cfg2 - an EventQueue keyed by a std::string taken BY VALUE, IncludeEvent; a "dispatch" is an enqueue
+// (event as lvalue, temporary or moved local) followed by process(): enqueue must read the event before the arguments are moved into the
+// stored tuple, whatever order the compiler evaluates call arguments in
+struct Cfg10
+{
+	typedef std::string Key;
+	typedef void Proto(std::string, Payload);
+	struct Pol { typedef eventpp::ArgumentPassingIncludeEvent ArgumentPassingMode; };
+	typedef eventpp::EventQueue<Key, Proto, Pol> D;
+	static Key key(int i) { return Cfg2::key(i); }
+	typedef Cfg2::K0 K0; typedef Cfg2::K1 K1; typedef Cfg2::K2 K2;
+	static std::function<Proto> make(int kind, int cb) { return Cfg2::make(kind, cb); }
+	static void dispatch(D & d, int ki, int v, int form)
+	{
+		std::string s = key(ki);
+		Payload p(2000, v * 5 + 2);
+		if(form == 0) d.enqueue(s, p);
+		else if(form == 1) d.enqueue(key(ki), Payload(2000, v * 5 + 2));
+		else d.enqueue(std::move(s), std::move(p));
+		d.process();
+	}
+	static Sig expected(int ki, int v, int) { Sig g; g.push_back(H(key(ki))); g.push_back(v * 5 + 2); return g; }
+	static int forms() { return 3; }
+};
+
 // ---------------------------------------------------------------- interpreter
 struct MItem { int cb; };
 
@@ -587,6 +644,10 @@ void runVariant6(const Plan & p, RunOut & o) { runCfg<Cfg6>(p, o); }
 void runVariant7(const Plan & p, RunOut & o) { runCfg<Cfg7>(p, o); }
 #elif SEQ_VARIANT == 8
 void runVariant8(const Plan & p, RunOut & o) { runCfg<Cfg8>(p, o); }
+#elif SEQ_VARIANT == 9
+void runVariant9(const Plan & p, RunOut & o) { runCfg<Cfg9>(p, o); }
+#elif SEQ_VARIANT == 10
+void runVariant10(const Plan & p, RunOut & o) { runCfg<Cfg10>(p, o); }
 #endif
 
 } // namespace sd
@@ -598,7 +659,7 @@ Sink * g_sink = nullptr;
 Counters counters;
 void runVariant0(const Plan &, RunOut &); void runVariant1(const Plan &, RunOut &); void runVariant2(const Plan &, RunOut &);
 void runVariant3(const Plan &, RunOut &); void runVariant4(const Plan &, RunOut &); void runVariant5(const Plan &, RunOut &);
-void runVariant6(const Plan &, RunOut &); void runVariant7(const Plan &, RunOut &); void runVariant8(const Plan &, RunOut &);
+void runVariant6(const Plan &, RunOut &); void runVariant7(const Plan &, RunOut &); void runVariant8(const Plan &, RunOut &); void runVariant9(const Plan &, RunOut &); void runVariant10(const Plan &, RunOut &);
 }
 
 namespace engine {
@@ -645,7 +706,7 @@ void execute(const Plan & plan, RunOut & out)
 	switch(v) {
 	case 0: sd::runVariant0(plan, out); break; case 1: sd::runVariant1(plan, out); break; case 2: sd::runVariant2(plan, out); break;
 	case 3: sd::runVariant3(plan, out); break; case 4: sd::runVariant4(plan, out); break; case 5: sd::runVariant5(plan, out); break;
-	case 7: sd::runVariant7(plan, out); break; case 8: sd::runVariant8(plan, out); break;
+	case 7: sd::runVariant7(plan, out); break; case 8: sd::runVariant8(plan, out); break; case 9: sd::runVariant9(plan, out); break; case 10: sd::runVariant10(plan, out); break;
 	default: sd::runVariant6(plan, out); break;
 	}
 	++sd::counters.plans;
@@ -659,7 +720,9 @@ std::string describe(const Plan & plan)
 {
 	static const char * vn[] = { "int key/void(int,const string&)/AutoDetect/hashed", "enum key/void(const string&,Payload)/ExcludeEvent", "string key BY VALUE/void(string,Payload)/IncludeEvent",
 		"user key with < (std::map)/void(const Key&,int)/AutoDetect", "user key with hash+== (unordered_map, colliding)/void(int,Payload)/ExcludeEvent", "getEvent policy on void(const Ev&)", "int key/explicit std::map/SingleThreading/void(int,Payload)",
-		"int key/ExcludeEvent/non-identity getEvent policy (masks bits)", "string key/ExcludeEvent/non-identity getEvent policy (strips suffix)" };
+		"int key/ExcludeEvent/non-identity getEvent policy (masks bits)", "string key/ExcludeEvent/non-identity getEvent policy (strips suffix)",
+		"int key/ExcludeEvent/getEvent policy reading a trailing by-value std::string argument",
+		"EventQueue, string key BY VALUE/void(string,Payload)/IncludeEvent: enqueue + process" };
 	static const char * names[] = { "?", "append", "prepend", "insert", "remove", "ownsHandle", "hasAny", "forEach", "dispatch" };
 	std::ostringstream o;
 	const int v = plan.user(sd::U_VARIANT);
